@@ -208,8 +208,12 @@ pub fn run(args: &Args, rep: &mut Rep) {
     let lo = args.param_u("len_lo", 8) as usize;
     let hi = args.param_u("len_hi", 30) as usize;
     let mode = args.param_s("mode", "mixed");
+    let sparse = args.param_u("sparse", 0) == 1;
     if mode == "hist" {
-        drive(args, rep, move |rng, _| run_hist_case(rng));
+        drive(args, rep, move |rng, _| {
+            SPARSE.with(|s| s.set(sparse));
+            run_hist_case(rng)
+        });
     } else {
         drive(args, rep, move |rng, _| run_case(rng, lo, hi));
     }
@@ -218,8 +222,14 @@ pub fn run(args: &Args, rep: &mut Rep) {
 // ---------------------------------------------------------------------------------------------
 // declarative histories (adds + unions of generated terms): shrinkable, replayable with `vworker script`
 
+thread_local! {
+    pub static SPARSE: std::cell::Cell<bool> = std::cell::Cell::new(false);
+}
+
 pub fn eval_struct(h: &History, extra_ops: bool) -> CaseOut {
     let mut out = CaseOut::default();
+    // sparse: invariants (which canonicalise every id, i.e. compress paths) are evaluated only after the last operation
+    let sparse = SPARSE.with(|s| s.get());
     let lang = &LSYM;
     let cj = h.json(lang);
     let mut eg: EGraph<LSym> = EGraph::default();
@@ -251,13 +261,43 @@ pub fn eval_struct(h: &History, extra_ops: bool) -> CaseOut {
             return out;
         }
         out.inc("operations");
+        if sparse && step + 1 < h.ops.len() {
+            // only the (non-intrusive) progress measure is read between operations
+            let p = eg.progress();
+            let cur = (p.number_of_live_classes, p.sum_of_slots, p.sum_of_symmetries, p.number_of_classes);
+            if cur.3 == prev.3 && cur.0 == prev.0 && cur.1 < prev.1 {
+                red += 1;
+            }
+            if cur.3 == prev.3 && cur.0 == prev.0 && cur.1 == prev.1 && cur.2 > prev.2 {
+                sym += 1;
+            }
+            prev = cur;
+            continue;
+        }
+        let hs: Vec<AppliedId> = ids.values().cloned().collect();
+        if sparse {
+            // first the old handles, untouched since they were returned; then the intrusive checks
+            let (n, bad) = handle_invariants(&eg, &hs);
+            out.add("invariant_checks", n);
+            if let Some((sig, d)) = bad {
+                out.fail(Fail::new("inconsistent", sig, format!("after step {step} ({}): {d}", text[step]), cj.clone()));
+                return out;
+            }
+            for a in &hs {
+                for b in &hs {
+                    if let Err(p) = guard(|| eg.eq(a, b)) {
+                        out.fail(Fail::panic("panic", &p, &format!("eq of two old handles after step {step}"), cj.clone()));
+                        return out;
+                    }
+                }
+            }
+        }
         let (n, bad) = structural_invariants(&eg);
         out.add("invariant_checks", n);
         if let Some((sig, d)) = bad {
             out.fail(Fail::new("inconsistent", sig, format!("after step {step} ({}): {d}", text[step]), cj.clone()));
             return out;
         }
-        let hs: Vec<AppliedId> = ids.values().cloned().collect();
         let (n, bad) = handle_invariants(&eg, &hs);
         out.add("invariant_checks", n);
         if let Some((sig, d)) = bad {
